@@ -18,11 +18,13 @@ FUNCTIONS['ctl'] = ['_checkAtomicProposition', '_checkNot', '_checkEX', '_checkO
 FUNCTIONS['rewrite'] = ['LNot'] + ['%s.get_equivalent_restricted_formula' % c for c in
                                    ('AtomicProposition', 'Not', 'A', 'E', 'X', 'F', 'G', 'Or', 'And', 'Imply', 'U', 'R')]
 FUNCTIONS['rewrite'] += ['EX', 'EG', 'EU', 'CTL.A.get_equivalent_restricted_formula', 'CTL.E.get_equivalent_restricted_formula']
+FUNCTIONS['ltl'] = ['LTL.modelcheck']
+FUNCTIONS['ctls'] = ['_remove_state_subformulas', '_checkQuantifiedFormula', 'CTLS.modelcheck']
 FUNCTIONS['bdd'] = ['find_isomorph', 'BDDNode.__reset__', 'BDDNonTerminalNode.__reset__', 'BDDNonTerminalNode.__new__']
 PROPERTY_FUNCTIONS = {
     'C10': ['Parser.__call__'],
     'C02': ['LTL.modelcheck', 'LNot', 'Not.get_equivalent_restricted_formula'],
-    'C03': ['_get_a_new_atomic_proposition_for', 'Kripke.labels'],
+    'C03': ['_get_a_new_atomic_proposition_for', 'Kripke.labels'] + FUNCTIONS['ctls'] + ['Kripke.clone', 'LTL.modelcheck', 'LNot'],
     'C16': FUNCTIONS['bdd'],
     'C05': FUNCTIONS['rewrite'],
     # own functions + the callee contracts the labelling relies on directly (their owners C13/C14 verify the rest)
@@ -30,8 +32,8 @@ PROPERTY_FUNCTIONS = {
                                'DiGraph.get_subgraph', 'DiGraph.get_reversed_graph', 'DiGraph.add_edge', 'DiGraph.add_node',
                                'DiGraph.nodes', 'DiGraph.next', 'DiGraph.get_reachable_set_from'],
     'C07': FUNCTIONS['ctl'] + ['Kripke.clone', 'Kripke.labels', 'Kripke.states', 'Kripke.next', 'Kripke.transitions_iter',
-                               'DiGraph.get_subgraph', 'DiGraph.get_reversed_graph', 'DiGraph.get_reachable_set_from'],
-    'C19': FUNCTIONS['ctl'] + ['Kripke.labels', 'Kripke.states', 'Kripke.next', 'Kripke.transitions_iter'],
+                               'DiGraph.get_subgraph', 'DiGraph.get_reversed_graph', 'DiGraph.get_reachable_set_from'] + FUNCTIONS['ctls'] + FUNCTIONS['ltl'],
+    'C19': FUNCTIONS['ctl'] + ['Kripke.labels', 'Kripke.states', 'Kripke.next', 'Kripke.transitions_iter'] + FUNCTIONS['ctls'] + FUNCTIONS['ltl'],
     'C13': FUNCTIONS['graph'],
     'C14': FUNCTIONS['kripke'] + FUNCTIONS['graph'],
 }
@@ -72,10 +74,18 @@ TRUSTED = {
             'contract of _checkE_path_formula (result = states with some path satisfying the restricted formula) and the proved contracts of LNot / rewriting; '
             'the tableau (_get_closure, _build_atoms, _Tableu, _is_non_trivial_self_fulfilling) and TB9 are not within deductive reach: bounded only',
             'documented path semantics as axioms (vf/pyvc/formula_sem.py)'],
-    'C03': ['only the fresh-label helper _get_a_new_atomic_proposition_for is under proof (the label is not a label of K; termination not claimed; '
-            'it may still collide with an atom of the formula, KF-C19-2); _remove_state_subformulas/_checkQuantifiedFormula/modelcheck: bounded only'],
-    'C07': ['frame obligations cover the CTL labelling functions proved so far; LTL/CTL* call graphs bounded only'],
-    'C19': ['safety obligations cover the CTL labelling functions proved so far; LTL/CTL* call graphs bounded only'],
+    'C03': ['the fresh-label helper _get_a_new_atomic_proposition_for is under proof (the label is not a label of K; termination not claimed; '
+            'it may still collide with an atom of the formula, KF-C19-2)',
+            '_remove_state_subformulas / _checkQuantifiedFormula / CTLS.modelcheck (object formula, F=None) are under proof for FRAME and SAFETY only (owned by C07 / C19): '
+            'what the reduction computes (relabelling + substitution lemma) is not stated; bounded only'],
+    'C07': ['frame obligations cover: the CTL labelling functions and CTL.modelcheck (object formula, F=None); LTL.modelcheck wrapper (given the assumed _checkE_path_formula contract); '
+            'CTLS.modelcheck, _remove_state_subformulas, _checkQuantifiedFormula (object formula, F=None): writes go to objects allocated during the call, or to the label sets of the CLONE',
+            'ASSUMED in the CTL* call graph: CTL.modelcheck called with an arbitrary formula object (cast leg) either raises TypeError or returns a new set and writes nothing older than the call; '
+            'formula operations (constructors, LNot, subformulas, cast_to, printing) do not touch structures; formula objects satisfy the arity invariant (C08, bounded; KF-C08-1)',
+            'the fairness legs (F given), the text/parser legs and purity of REPEATED calls (no hidden state) are bounded only'],
+    'C19': ['safety obligations (no KeyError/IndexError/RuntimeError/AttributeError/StopIteration can leave the function) and freshness of the result cover the CTL labelling functions, '
+            'CTL.modelcheck, the LTL.modelcheck wrapper and the CTL* reduction (object formula, F=None) under the assumptions listed for C07; tableau and fairness legs bounded only',
+            'precondition: Python None is not a state (KF-C19-1)'],
 }
 
 
@@ -91,7 +101,7 @@ def build_engine(repo=None, timeout_ms=20000, seed=0):
         E.baseline_names = set()
     for k in contracts_graph.make():
         E.register(k, contracts_graph.FILE)
-    for modname in ('contracts_kripke', 'contracts_ctl', 'formula_sem', 'contracts_bdd', 'contracts_parser'):
+    for modname in ('contracts_kripke', 'contracts_ctl', 'formula_sem', 'contracts_bdd', 'contracts_parser', 'contracts_ctls'):
         mod = __import__('vf.pyvc.' + modname, fromlist=['install'])
         mod.install(E)
     from . import contracts_ctl, formula_sem
